@@ -162,14 +162,36 @@ package wal
 //@ func stateTxn(s)
 //@   requires s != nil && WFS(s)
 //@   assigns s
-//@   ensures result2 == nil ==> SInv(s)
+//@   ensures[C03.txn-pinv] result2 == nil ==> SInv(s)
+//@   ensures[C03.txn-wf] result2 == nil && result1 == nil ==> WFS(s)
+//@   ensures[C03.txn-pending-tail] result2 == nil && result1 != nil ==> PendingTail(s)
+//@   resultcontract result1 wal.postCommit(s, smget(s.segments, smmax(s.segments)))
+
+//@ -- PendingTail(s): the shape a transaction leaves when it added a new tail
+//@ -- segment whose file is created by the post-commit step: the map is
+//@ -- persistable, the greatest segment is the new unsealed one (no reader yet),
+//@ -- every other segment has its reader
+//@ predicate PendingTail(s) = SInv(s) && smnonempty(s.segments) && unsealedSeg(smget(s.segments, smmax(s.segments)))
+//@   && smget(s.segments, smmax(s.segments)).MinIndex == smmax(s.segments)
+//@   && (forall k uint64 :: {smhas(s.segments, k)} smhas(s.segments, k) && k != smmax(s.segments) ==> smget(s.segments, k).r != nil)
+
+//@ -- contract of the post-commit step returned by createNextSegment for state s
+//@ -- and new tail seg: create the file, install writer and reader in s
+//@ func postCommit(s, seg)
+//@   requires s != nil && PendingTail(s) && smmax(s.segments) == seg.BaseIndex && SameSeg(seg, smget(s.segments, seg.BaseIndex))
+//@   assigns s.tail, s.segments, g_open
+//@   ensures[C03.post-wf] result == nil ==> WFS(s) && s.tail.last == 0 && s.tail.base == seg.BaseIndex && !s.tail.sealed
+//@   ensures[C04.post-keeps-map] result == nil ==> (forall k uint64 :: {smhas(s.segments, k)} smhas(s.segments, k) <==> old(smhas(s.segments, k)))
+//@   ensures[C04.post-keeps-segments] result == nil ==> (forall k uint64 :: {smhas(s.segments, k)} smhas(s.segments, k) ==> SameInfo(smget(s.segments, k), old(smget(s.segments, k))))
 
 //@ func (*WAL).mutateStateLocked
 //@   props C03 C04 C10
 //@   requires w.metaDB != nil && tx != nil && av(w.s) != nil && WFS(av(w.s))
-//@   assigns w.s, g_commits, av(w.s).refCount, av(w.s).finalizer
+//@   assigns w.s, g_commits, g_open, av(w.s).refCount, av(w.s).finalizer
+//@   ensures[C03.published-state-wf] av(w.s) != nil && WFS(av(w.s))
 //@   site after-call(stateTxn#1) requires[C03.pinv-at-commit] callresult._2 == nil ==> SInv(newS)
 //@   site atomic-store(s) requires[C10.published-after-commit] g_commits == old(g_commits) + 1
+//@   site atomic-store(s) requires[C03.published-wf] WFS(stored)
 //@   site atomic-store(finalizer) requires[C04.finalizer-after-commit] g_commits == old(g_commits) + 1
 //@   ensures[C04.one-commit-per-txn] result == nil ==> g_commits == old(g_commits) + 1
 //@   ensures[C10.atomic] result != nil ==> g_commits == old(g_commits)
@@ -180,6 +202,11 @@ package wal
 //@ -- immutable sorted map; the greatest key is the unsealed tail.
 //@ -- ------------------------------------------------------------------------
 //@ predicate unsealedSeg(seg) = iszero(seg.SealTime)
+//@ predicate EmptyLog(s) = smmin(s.segments) == smmax(s.segments) && s.tail.last == 0
+//@ -- two map entries describe the same segment (SameInfo: ignoring the cached reader)
+//@ predicate SameInfo(a, b) = a.ID == b.ID && a.BaseIndex == b.BaseIndex && a.MinIndex == b.MinIndex && a.MaxIndex == b.MaxIndex
+//@      && a.Codec == b.Codec && a.IndexStart == b.IndexStart && a.SealTime == b.SealTime && a.SizeLimit == b.SizeLimit && a.CreateTime == b.CreateTime
+//@ predicate SameSeg(a, b) = SameInfo(a, b) && ((a.r == nil) <==> (b.r == nil))
 
 //@ -- SInv(s): the segment map describes one contiguous, unambiguous log. This
 //@ -- is what CommitState persists (C03/C04 "PInv"): keys are BaseIndexes (>= 1),
@@ -221,9 +248,7 @@ package wal
 //@   props C05
 //@   requires s.segments != nil
 //@   ensures[C05.tailinfo] (result == nil <==> !smnonempty(s.segments))
-//@   ensures[C05.tailinfo-fields] result != nil ==> result.BaseIndex == smget(s.segments, smmax(s.segments)).BaseIndex && result.ID == smget(s.segments, smmax(s.segments)).ID
-//@      && result.MinIndex == smget(s.segments, smmax(s.segments)).MinIndex && result.MaxIndex == smget(s.segments, smmax(s.segments)).MaxIndex
-//@      && result.SealTime == smget(s.segments, smmax(s.segments)).SealTime && result.IndexStart == smget(s.segments, smmax(s.segments)).IndexStart
+//@   ensures[C05.tailinfo-fields] result != nil ==> SameSeg(result, smget(s.segments, smmax(s.segments)))
 
 //@ func (*state).findSegmentReader
 //@   props C05
@@ -248,11 +273,21 @@ package wal
 //@   assigns g_rot_pending
 //@   ensures g_rot_pending == 0
 
+//@ -- [assumed-headroom]: segment IDs and log indexes stay 256 below 2^64
+//@ predicate Headroom(s) = s.nextSegmentID < 0xfffffffffffffff0 && s.tail.last < 0xffffffffffffff00 && smmax(s.segments) < 0xffffffffffffff00
 //@ func (*WAL).truncateHeadLocked
-//@   trusted transaction bodies are covered by the segment-map model (not yet under contract)
+//@   props C03 C04 C05 C13
+//@   inlinecall mutateStateLocked
+//@   requires w.metaDB != nil && w.codec != nil && w.sf != nil && w.metrics != nil && av(w.s) != nil && WFS(av(w.s))
+//@   requires[assumed-headroom] Headroom(av(w.s))
 //@   requires[C05.head-newmin-no-overflow] newMin != 0
+//@   requires[C04.head-newmin] EmptyLog(av(w.s)) || newMin >= smget(av(w.s).segments, smmin(av(w.s).segments)).MinIndex
 //@   requires[C05.no-pending-rotation] g_rot_pending == 0
-//@   assigns g_commits, w.s
+//@   assigns g_commits, g_open, w.s, av(w.s).refCount, av(w.s).finalizer
+//@   ensures[C03.published-state-wf] av(w.s) != nil && WFS(av(w.s))
+//@   ensures[C04.head-applied] result == nil && old(LastOf(av(w.s))) >= newMin ==> FirstOf(av(w.s)) == newMin && LastOf(av(w.s)) == old(LastOf(av(w.s)))
+//@   ensures[C04.head-all-removed] result == nil && old(LastOf(av(w.s))) < newMin ==> FirstOf(av(w.s)) == 0 && LastOf(av(w.s)) == 0
+//@   ensures[C04.head-one-commit] result == nil ==> g_commits == old(g_commits) + 1
 //@   ensures result != nil ==> g_commits == old(g_commits) || g_commits == old(g_commits) + 1
 //@ func (*WAL).truncateTailLocked
 //@   trusted transaction bodies are covered by the segment-map model (not yet under contract)
@@ -341,26 +376,39 @@ package wal
 
 //@ func (*WAL).createNextSegment
 //@   props C03 C04 C13
-//@   requires newState != nil && w.codec != nil && AllSealed(newState) && newState.nextSegmentID < 0xfffffffffffffff0
+//@   requires newState != nil && w.codec != nil && w.sf != nil && AllSealed(newState) && newState.nextSegmentID < 0xfffffffffffffff0
 //@   requires !smnonempty(newState.segments) ==> newState.nextBaseIndex < 0xfffffffffffffff0
 //@   assigns newState.nextSegmentID, newState.segments
 //@   ensures result1 == nil && result0 != nil
 //@   ensures[C13.fresh-id] newState.nextSegmentID == old(newState.nextSegmentID) + 1 && smget(newState.segments, smmax(newState.segments)).ID == old(newState.nextSegmentID)
 //@   ensures[C04.new-tail-base] smnonempty(newState.segments) && smmax(newState.segments) == ite(old(smnonempty(newState.segments)), old(smget(newState.segments, smmax(newState.segments)).MaxIndex) + 1,
 //@        ite(old(newState.nextBaseIndex) > 0, old(newState.nextBaseIndex), 1))
+//@   ensures[C04.new-tail-min] smmin(newState.segments) == ite(old(smnonempty(newState.segments)), old(smmin(newState.segments)), smmax(newState.segments))
 //@   ensures[C04.new-tail-unsealed] unsealedSeg(smget(newState.segments, smmax(newState.segments))) && smget(newState.segments, smmax(newState.segments)).MinIndex == smmax(newState.segments)
 //@      && smget(newState.segments, smmax(newState.segments)).MaxIndex == 0
 //@   ensures[C03.pinv-create] SInv(newState)
+//@   ensures[C03.create-pending] old(forall k uint64 :: {smhas(newState.segments, k)} smhas(newState.segments, k) ==> smget(newState.segments, k).r != nil) ==> PendingTail(newState)
+//@   resultcontract result0 wal.postCommit(newState, smget(newState.segments, smmax(newState.segments)))
 //@   ensures[C04.others-kept] forall k uint64 :: {smhas(newState.segments, k)} old(smhas(newState.segments, k)) ==> smhas(newState.segments, k)
 //@        && smget(newState.segments, k).ID == old(smget(newState.segments, k).ID) && smget(newState.segments, k).MinIndex == old(smget(newState.segments, k).MinIndex)
 //@        && smget(newState.segments, k).MaxIndex == old(smget(newState.segments, k).MaxIndex) && smget(newState.segments, k).SealTime == old(smget(newState.segments, k).SealTime)
 //@        && smget(newState.segments, k).IndexStart == old(smget(newState.segments, k).IndexStart) && smget(newState.segments, k).Codec == old(smget(newState.segments, k).Codec)
 
+//@ func (*WAL).createNextSegment$1
+//@   props C03 C04 C13
+//@   implements wal.postCommit
+//@   implbind s = newState
+//@   implbind seg = ss
+//@   cbinv w != nil && w.sf != nil && newTail.BaseIndex == ss.BaseIndex && newTail.ID == ss.ID
+//@   assigns newState.tail, newState.segments, ss, g_open
+//@   ensures[C10.post-failure-keeps-state] result != nil ==> newState.tail == old(newState.tail)
+
 //@ -- rotation: seal the (non-empty, sealed-on-disk) tail in the metadata and add a new tail
 //@ func (*WAL).rotateSegmentLocked$1
 //@   props C03 C04 C13
 //@   implements wal.stateTxn
-//@   requires w != nil && w.codec != nil && w.metrics != nil && newState.nextSegmentID < 0xfffffffffffffff0
+//@   cbinv w != nil && w.codec != nil && w.sf != nil && w.metrics != nil
+//@   requires newState.nextSegmentID < 0xfffffffffffffff0
 //@   requires newState.tail.last != 0 && newState.tail.last < 0xfffffffffffffff0
 //@   assigns newState.segments, newState.nextSegmentID
 //@   ensures[C04.rotate-seals-tail] result2 == nil ==> smhas(newState.segments, old(smmax(newState.segments))) && !unsealedSeg(smget(newState.segments, old(smmax(newState.segments))))
@@ -368,3 +416,28 @@ package wal
 //@   ensures[C04.rotate-new-tail] result2 == nil ==> smmax(newState.segments) == newState.tail.last + 1 && unsealedSeg(smget(newState.segments, smmax(newState.segments)))
 //@   ensures[C13.rotate-fresh-id] result2 == nil ==> newState.nextSegmentID == old(newState.nextSegmentID) + 1 && smget(newState.segments, smmax(newState.segments)).ID == old(newState.nextSegmentID)
 //@   ensures result0 == nil
+
+
+//@ -- head truncation: drop whole segments below newMin, raise the head's MinIndex
+//@ func (*WAL).truncateHeadLocked$1
+//@   props C03 C04 C13
+//@   implements wal.stateTxn
+//@   cbinv w != nil && w.codec != nil && w.sf != nil && w.metrics != nil
+//@   requires newState.nextSegmentID < 0xfffffffffffffff0 && newState.tail.last < 0xffffffffffffff00
+//@   requires smmax(newState.segments) < 0xffffffffffffff00
+//@   requires[C04.head-newmin] newMin != 0 && (EmptyLog(newState) || newMin >= smget(newState.segments, smmin(newState.segments)).MinIndex)
+//@   assigns newState.segments, newState.nextSegmentID, newState.nextBaseIndex
+//@   loop 1 invariant newState.segments != nil
+//@   loop 1 invariant itvalid(it) ==> smhas(old(newState.segments), itcur(it))
+//@   loop 1 invariant forall k uint64 :: {smhas(newState.segments, k)} smhas(newState.segments, k) ==> smhas(old(newState.segments), k) && itvalid(it) && k >= itcur(it)
+//@   loop 1 invariant forall k uint64 :: {smhas(old(newState.segments), k)} smhas(old(newState.segments), k) && itvalid(it) && k >= itcur(it) ==> smhas(newState.segments, k)
+//@   loop 1 invariant forall k uint64 :: {smhas(newState.segments, k)} smhas(newState.segments, k) ==> SameSeg(smget(newState.segments, k), smget(old(newState.segments), k))
+//@   loop 1 invariant itvalid(it) ==> smmin(newState.segments) == itcur(it)
+//@   loop 1 invariant forall k uint64 :: {smhas(newState.segments, k)} smhas(newState.segments, k) ==> (hasnext(newState.segments, k) <==> hasnext(old(newState.segments), k)) && (hasnext(newState.segments, k) ==> smnext(newState.segments, k) == smnext(old(newState.segments), k))
+//@   loop 1 invariant itvalid(it) && !old(EmptyLog(newState)) ==> newMin >= itcur(it)
+//@   loop 1 invariant forall k uint64 :: {smhas(old(newState.segments), k)} smhas(old(newState.segments), k) && (!itvalid(it) || k < itcur(it))
+//@        ==> ite(unsealedSeg(smget(old(newState.segments), k)), old(LastOf(newState)), smget(old(newState.segments), k).MaxIndex) < newMin
+//@   ensures[C04.head-applied] result2 == nil && old(LastOf(newState)) >= newMin ==> smnonempty(newState.segments) && smget(newState.segments, smmin(newState.segments)).MinIndex == newMin
+//@        && smmax(newState.segments) == old(smmax(newState.segments)) && (newState.tail.last == 0 ==> smmin(newState.segments) != smmax(newState.segments)) && result1 == nil
+//@   ensures[C04.head-all-removed] result2 == nil && old(LastOf(newState)) < newMin ==> smnonempty(newState.segments) && smmin(newState.segments) == smmax(newState.segments)
+//@        && smmax(newState.segments) == old(LastOf(newState)) + 1 && smget(newState.segments, smmax(newState.segments)).ID == old(newState.nextSegmentID)
